@@ -4,7 +4,7 @@
 out=$1; wt=$2; shift; shift
 for d in "$@"; do
   name=$(basename $d)
-  git -C $wt checkout -q -- . ; git -C $wt clean -fdq
+  git -C $wt reset -q --hard ; git -C $wt clean -fdq
   if git -C $wt apply --3way $d/patch.diff > /dev/null 2>&1 || git -C $wt apply $d/patch.diff > /dev/null 2>&1; then
     git -C $wt reset -q
     line="$name:"
@@ -17,4 +17,4 @@ for d in "$@"; do
     echo "$name: apply-failed" >> $out
   fi
 done
-git -C $wt checkout -q -- . ; git -C $wt clean -fdq
+git -C $wt reset -q --hard ; git -C $wt clean -fdq
